@@ -66,6 +66,9 @@ def configs(tier):
             out.append(("py_header_roundtrip", i, j))
     out.append(("py_make_header",))
     out.append(("py_count_nrows",))
+    for how in ("sfile.write", "SFile.write", "Recfile.write"):
+        for layout in ("contiguous", "every-other-row", "reversed"):
+            out.append(("py_write_layout", how, layout))
     return out
 
 
@@ -138,6 +141,41 @@ def harness(cx, cfg):
             for name in dt.names:
                 a, b_ = back[name].a.ravel().tolist(), t[name].a.ravel().tolist()
                 cx.check("read back: identical raw cells in every row", len(a) == len(b_) and all(x is y or x == y for x, y in zip(a, b_)))
+        return
+    if what == "py_write_layout":
+        # the table as the caller holds it: contiguous, or a strided view of a larger table
+        from vf import recmodel
+        _, how, layout = cfg
+        dt = rnp.dtype(DESCRS[0])
+        n = 4
+        t = symrec.SRec.zeros((n,), dt)
+        for name in dt.names:
+            b, sub = symrec.field_base(dt, name)
+            full = (n,) + tuple(sub)
+            src = rnp.empty(full, dtype=object)
+            for ix in rnp.ndindex(*full):
+                src[ix] = cx.int("c_%s_%s" % (name, "_".join(map(str, ix))))
+            t[name] = symnp.SArr(src, b.newbyteorder("=") if b.itemsize > 1 and b.kind not in "SU" else b)
+        v = {"contiguous": t, "every-other-row": t[::2], "reversed": t[::-1]}[layout]
+        rf = ld.get("esutil.recfile")
+        try:
+            if how == "sfile.write":
+                sf.write(v, "/virtual/l.rec")
+            elif how == "SFile.write":
+                with sf.SFile("/virtual/l.rec", mode="w") as h:
+                    h.write(v)
+            else:
+                with rf.Recfile("/virtual/l.rec", mode="w") as r:
+                    r.write(v)
+        except recmodel.ContractViolation as e:
+            cx.fail("%s of a table that is a %s view: %s" % (how, layout, e))
+            return
+        back = sf.read("/virtual/l.rec") if how != "Recfile.write" else rf.Recfile("/virtual/l.rec", mode="r", dtype=dt, nrows=v.size).read()
+        cx.check("%s (%s view): rows read back are the rows of the view" % (how, layout), isinstance(back, symrec.SRec) and back.size == v.size)
+        if isinstance(back, symrec.SRec) and back.size == v.size:
+            for name in dt.names:
+                a, b_ = back[name].a.ravel().tolist(), v[name].a.ravel().tolist()
+                cx.check("%s (%s view): identical raw cells in every row" % (how, layout), len(a) == len(b_) and all(x is y or x == y for x, y in zip(a, b_)))
         return
     if what == "py_make_header":
         s = sf.SFile()
@@ -252,6 +290,30 @@ def replay(cand):
                     if msg:
                         key = "header-END" if (hu and ("END" in repr(hu))) or "END" in repr(descr) else "roundtrip"
                         return {"reproduced": True, "key": key, "what": msg}
+            return no
+        if what == "py_write_layout":
+            _, how, layout = cfg
+            big = table(DESCRS[1], 6)
+            v = {"contiguous": big, "every-other-row": big[::2], "reversed": big[::-1]}[layout]
+            want = np.ascontiguousarray(v)
+            fn = os.path.join(d, "l.rec")
+            if how == "sfile.write":
+                sfile.write(v, fn)
+            elif how == "SFile.write":
+                with sfile.SFile(fn, mode="w") as h:
+                    h.write(v)
+            else:
+                with recfile.Recfile(fn, mode="w") as r:
+                    r.write(v)
+            if how == "Recfile.write":
+                with recfile.Recfile(fn, mode="r", dtype=v.dtype, nrows=v.size) as r:
+                    back = r.read()
+            else:
+                back = sfile.read(fn)
+            if back.tobytes() != want.tobytes():
+                return {"reproduced": True, "key": "write:non-contiguous",
+                        "what": "%s of a table that is a %s view of a larger one: the file holds %s = %r, the view has %r"
+                                % (how, layout, back.dtype.names[0], back[back.dtype.names[0]].tolist(), want[want.dtype.names[0]].tolist())}
             return no
         if what == "xx_write_header":
             for i, hu in enumerate([{"p": "100%"}, {"p": "%s"}, {"p": "%%"}, {"p": "a%db"}]):
